@@ -253,6 +253,7 @@ def verify_document(data, pub, node_name, id_attr, node_id):
         raise ToolError("failed to find Signature node")
     si, sv, hcls, refs = _signature_parts(sig)
     n_ok = 0
+    verify_document.last_refs = [(r_.get("URI") or "") for r_ in refs]
     for ref in refs:
         dv = ref.find(_q(DS, "DigestValue"))
         want = "".join((dv.text or "").split()) if dv is not None else ""
@@ -554,8 +555,11 @@ class SimXmlsec(object):
                     pub = load_cert_public_key(f.read())
                 inv["key"] = self.label(pub)
                 inv["node_name"] = node_name
+                verify_document.last_refs = []
                 ok, n_ok, n_all = verify_document(data, pub, node_name, id_attr, inv["node_id"])
                 inv["healthy_ok"] = ok
+                # which elements this verification vouches for (same-document reference targets)
+                inv["covers"] = [u[1:] for u in verify_document.last_refs if u.startswith("#")]
                 tail = ("SignedInfo References (ok/all): %d/%d\nManifests References (ok/all): 0/0\n"
                         % (n_ok, n_all)).encode()
                 if ok:
